@@ -42,7 +42,7 @@ impl Cfg {
         let mut r = Rng::new(seed);
         let _ = thorough;
         let comp = if cfg!(feature = "full") && r.chance(1, 4) { if r.chance(1, 2) { Comp::Gz } else { Comp::Zst } } else { Comp::None };
-        let mut pattern_rel = (*r.pick(&["app.{}.log", "arch/app.{}.log"])).to_owned();
+        let mut pattern_rel = (*r.pick(&["app.{}.log", "arch/app.{}.log", "arch/{}/app.log"])).to_owned();
         match comp {
             Comp::Gz => pattern_rel.push_str(".gz"),
             Comp::Zst => pattern_rel.push_str(".zst"),
@@ -139,6 +139,7 @@ struct HookState {
     planted: Option<PathBuf>,
     fault_skipped: bool,
     used_devfull: bool,
+    used_dangling: bool,
     images_to: Option<PathBuf>,
     images: Vec<ImageMeta>,
     abort_at: Option<usize>,
@@ -165,6 +166,12 @@ fn plant_obstacle(dest: &Path) {
 fn remove_obstacles(root: &Path, kind: &RollerKind) {
     for (_, name) in kind.managed() {
         let p = root.join(&name);
+        // a dangling link in place of a slot directory
+        if let Some(d) = p.parent() {
+            if std::fs::symlink_metadata(d).map(|m| m.file_type().is_symlink()).unwrap_or(false) {
+                let _ = std::fs::remove_file(d);
+            }
+        }
         if std::fs::symlink_metadata(&p).map(|m| m.file_type().is_symlink()).unwrap_or(false) {
             let _ = std::fs::remove_file(&p);
         } else if p.is_dir() && p.join("obstacle/keep").exists() {
@@ -221,6 +228,8 @@ pub struct RunOut {
     pub planted: Option<PathBuf>,
     pub fault_skipped: bool,
     pub used_devfull: bool,
+    pub used_dangling: bool,
+    pub retained: Vec<Vec<u8>>,
     pub app: Option<Box<dyn Append>>,
     pub next_seq: u32,
 }
@@ -284,7 +293,27 @@ pub fn run_history_with(cfg: &Cfg, root: &Path, fault_at: Option<usize>, images_
                 let dest = root.join(crate::c07::archive_rel(&pattern_rel, idx));
                 // a shift whose source does not exist is a tolerated no-op: an obstacle cannot make it fail
                 let src_exists = name != "rotate.shift" || root.join(crate::c07::archive_rel(&pattern_rel, arg)).exists();
-                if src_exists {
+                let dest_dir = dest.parent().map(|p| p.to_path_buf());
+                let per_index_dir = pattern_rel.contains("{}/");
+                let _ = &dest_dir;
+                // this shift is a no-op (slot `arg` is still empty) but the next one (arg-1 -> arg) is not: the
+                // (empty or missing) directory of slot `arg` is replaced by a dangling link, as when the slot was
+                // moved to a volume that is not mounted. Making that directory must then fail.
+                let next_src_exists = name == "rotate.shift" && arg >= 1
+                    && root.join(crate::c07::archive_rel(&pattern_rel, arg - 1)).exists();
+                let slot_dir = root.join(crate::c07::archive_rel(&pattern_rel, arg)).parent().map(|p| p.to_path_buf());
+                if !src_exists && next_src_exists && s.devfull && per_index_dir && slot_dir.is_some() {
+                    let d = slot_dir.unwrap();
+                    let _ = std::fs::remove_dir(&d);
+                    if std::fs::symlink_metadata(&d).is_err()
+                        && std::os::unix::fs::symlink("/nonexistent/l4v-nowhere", &d).is_ok()
+                    {
+                        s.used_dangling = true;
+                        s.planted = Some(d);
+                    } else {
+                        s.fault_skipped = true;
+                    }
+                } else if src_exists {
                     if s.devfull && name == "rotate.final" && (pattern_rel.ends_with(".gz") || pattern_rel.ends_with(".zst")) {
                         let _ = std::fs::remove_file(&dest);
                         let _ = std::os::unix::fs::symlink("/dev/full", &dest);
@@ -303,7 +332,7 @@ pub fn run_history_with(cfg: &Cfg, root: &Path, fault_at: Option<usize>, images_
             }
         })));
     }
-    let mut out = RunOut { acks: vec![], points: 0, rotations: 0, images: vec![], failed_append_seq: None, problems: vec![], planted: None, fault_skipped: false, used_devfull: false, app: None, next_seq: 0 };
+    let mut out = RunOut { acks: vec![], points: 0, rotations: 0, images: vec![], failed_append_seq: None, problems: vec![], planted: None, fault_skipped: false, used_devfull: false, used_dangling: false, retained: vec![], app: None, next_seq: 0 };
     let app = match build(cfg, root, cfg.script()) {
         Ok(a) => a,
         Err(e) => {
@@ -328,6 +357,9 @@ pub fn run_history_with(cfg: &Cfg, root: &Path, fault_at: Option<usize>, images_
             if fault_at.is_some() && st.borrow().planted.is_some() {
                 break;
             }
+        } else if fault_at.is_some() && st.borrow().used_dangling {
+            // the rotation with the dangling link got through: stop here so that its outcome can be inspected
+            break;
         }
     }
     hooks::set_local(None);
@@ -338,6 +370,8 @@ pub fn run_history_with(cfg: &Cfg, root: &Path, fault_at: Option<usize>, images_
     out.planted = s.planted.clone();
     out.fault_skipped = s.fault_skipped;
     out.used_devfull = s.used_devfull;
+    out.used_dangling = s.used_dangling;
+    out.retained = s.retained.clone();
     out.problems.extend(s.problems.iter().cloned());
     out.app = Some(app);
     out
@@ -457,13 +491,17 @@ fn one_history(rep: &mut Report, _rng: &mut Rng, idx: u64) {
             rep.count("fault_runs", 1);
             rep.case(&format!("{}|fault|{}|{}", cfg.describe(), p, variant), true);
             let fs = Scratch::new("c08f");
-            let devfull = cfg.comp != Comp::None && (p + variant) % 2 == 0;
+            // alternative fault kinds where they apply: ENOSPC on a compressed archive, dangling link on a slot directory
+            let devfull = (cfg.comp != Comp::None || cfg.pattern_rel.contains("{}/")) && (p + variant) % 2 == 0;
             let mut out = run_history_with(&cfg, &fs.path, Some(p), None, None, devfull);
             if out.used_devfull {
                 rep.count("faults_injected_as_enospc_on_the_archive", 1);
             }
+            if out.used_dangling {
+                rep.count("faults_injected_as_dangling_link_on_a_slot_directory", 1);
+            }
             let cont_name = ["same appender", "restarted appender", "obstruction removed immediately, restarted appender, many rotations"][variant];
-            let pt = json!({"kind": if out.used_devfull { "filesystem fault (archive slot is a link to /dev/full: writes fail with ENOSPC)" } else { "filesystem fault (non-empty directory at the step's destination)" },
+            let pt = json!({"kind": if out.used_dangling { "filesystem fault (the destination slot's directory name is taken by a dangling symbolic link)" } else if out.used_devfull { "filesystem fault (archive slot is a link to /dev/full: writes fail with ENOSPC)" } else { "filesystem fault (non-empty directory at the step's destination)" },
                 "point_index": p,
                 "continuation": cont_name});
             for (sig, what) in &out.problems {
@@ -475,6 +513,22 @@ fn one_history(rep: &mut Report, _rng: &mut Rng, idx: u64) {
             }
             if out.planted.is_none() {
                 rep.inconclusive("a fault run did not reach its hook point");
+                continue;
+            }
+            if out.failed_append_seq.is_none() && out.used_dangling {
+                // an implementation may legitimately get past a dangling link (replace it, or reach the slot some
+                // other way) - then no step failed. What it may not do is carry on silently over a skipped shift.
+                drop(out.app.take());
+                if let Err(what) = check_retained(&fs.path, &kind, &out.retained) {
+                    fail(rep, "fault-unreported:retained-chunk-lost", pt.clone(),
+                        format!("every append returned Ok although a slot directory could not be made, and then: {}", what));
+                    continue;
+                }
+                match stream_check(&fs.path, &kind, &out.acks) {
+                    Err((sig, what)) => fail(rep, &format!("fault-unreported:{}", sig), pt.clone(),
+                        format!("every append returned Ok although a slot directory could not be made, and then: {}", what)),
+                    Ok(_) => rep.count("dangling_link_faults_survived_without_an_error_and_without_loss", 1),
+                }
                 continue;
             }
             if out.failed_append_seq.is_none() {
